@@ -71,6 +71,7 @@ class Sched:
         self.threads: list[LThread] = []
         self.by_ident: dict[int, LThread] = {}
         self.events: list[tuple] = []           # (thread, kind, obj, value)
+        self.times: list[float] = []            # virtual time of each event
         self._aborted: str | None = None
         self.abort_index: int | None = None     # number of events logged when the run was cut
         self.lock = _real_threading.Lock()
@@ -104,6 +105,7 @@ class Sched:
     def log(self, kind: str, obj: str = "", value: Any = None, thread: str | None = None) -> None:
         ev = (thread or self.me().name, kind, obj, value)
         self.events.append(ev)
+        self.times.append(self.now)
         for l in self.listeners:
             l(ev)
 
